@@ -83,6 +83,9 @@ type OrderCfg struct {
 	CallClass func(callee *ssa.Function, call ssa.CallInstruction) string
 	// InvokeClass classifies interface-method calls the same way.
 	InvokeClass func(m *types.Func) string
+	// OrderedArgs: for a call classified "ordered", the argument objects the
+	// ordered effect lands on (ok=false: not confined to arguments).
+	OrderedArgs func(call ssa.CallInstruction) ([]ssa.Value, bool)
 	// Sorters are the functions that sort their first argument in place.
 	IsSorter func(callee *ssa.Function) bool
 }
@@ -158,7 +161,7 @@ func ClassifyMapLoop(p *Prog, l *MapLoop, cfg *OrderCfg) LoopClass {
 		}
 		return LoopClass{Kind: "first-element", Pos: pos, Detail: "the loop body never continues: only the first entry in map order is processed"}
 	}
-	collects := map[*ssa.Phi]bool{}
+	collects := map[ssa.Value]bool{}
 	// header phis: accumulators
 	for _, in := range l.Header.Instrs {
 		ph, ok := in.(*ssa.Phi)
@@ -195,6 +198,14 @@ func ClassifyMapLoop(p *Prog, l *MapLoop, cfg *OrderCfg) LoopClass {
 				// store of an element-derived value to memory that outlives the iteration
 				if _, isIdx := x.Addr.(*ssa.IndexAddr); isIdx && derived[x.Addr] {
 					continue // slot chosen by the element (keyed)
+				}
+				if ia, isIdx := x.Addr.(*ssa.IndexAddr); isIdx {
+					// ret[i] = elem; i++ into a slice made outside the loop:
+					// a collected slice, which must be sorted before any other use
+					if mk, isMk := ia.X.(*ssa.MakeSlice); isMk && !l.Body[mk.Block()] {
+						collects[mk] = true
+						continue
+					}
 				}
 				if al, isA := x.Addr.(*ssa.Alloc); isA {
 					// captured/escaping local: accumulation through memory
@@ -244,6 +255,26 @@ func ClassifyMapLoop(p *Prog, l *MapLoop, cfg *OrderCfg) LoopClass {
 				switch cls {
 				case "pure", "keyed":
 				case "ordered":
+					if cfg.OrderedArgs != nil {
+						if args, ok := cfg.OrderedArgs(x); ok {
+							local := true
+							for _, a := range args {
+								kind, _, creators := ObjOrigin(a, 0)
+								if kind != "fresh" {
+									local = false
+									break
+								}
+								for _, mk := range creators {
+									if !l.Body[mk.Block()] || mk.Block() == l.Header {
+										local = false
+									}
+								}
+							}
+							if local {
+								continue // sinks created inside this iteration
+							}
+						}
+					}
 					return LoopClass{Kind: "order-sensitive", Pos: pos, Detail: fmt.Sprintf("call to %s at %s appends to an ordered sink once per entry, in map order", callName(x), p.Rel(x.Pos()))}
 				default:
 					return LoopClass{Kind: "undecided", Pos: pos, Detail: fmt.Sprintf("call to %s at %s inside the loop has effects the classifier does not know", callName(x), p.Rel(x.Pos()))}
@@ -431,7 +462,7 @@ func memAccum(al *ssa.Alloc, st *ssa.Store, derived map[ssa.Value]bool) bool {
 
 // sortedBeforeUse: after the loop, the collected slice is sorted before any
 // other use, or returned (then the caller must sort: Kind "returns-unsorted").
-func sortedBeforeUse(p *Prog, l *MapLoop, ph *ssa.Phi, cfg *OrderCfg) LoopClass {
+func sortedBeforeUse(p *Prog, l *MapLoop, ph ssa.Value, cfg *OrderCfg) LoopClass {
 	pos := l.Range.Pos()
 	var sortCall ssa.Instruction
 	var others []ssa.Instruction
